@@ -66,6 +66,26 @@ ASSUMPTIONS += [
     "views, printing, look-ups, response, tuple unpacking) and one object derived from it afterwards are "
     "judged again: designs are independent objects",
 ]
+ASSUMPTIONS += [
+    "the views are compared EXACTLY: np.asarray(obj), np.array(obj), as_dataframe().to_numpy() (native dtype), "
+    "obj[term] for every term, np.asarray(obj)[:, slices[term]] against obj[term], on the training objects, on "
+    "every object of every chain of evaluate_new_data calls and on the response (np.asarray / np.array / "
+    "as_dataframe) must hold exactly the entries of design_matrix -- arrays of one integer / boolean / floating "
+    "dtype are compared by numpy without conversion, arrays of different dtypes entry by entry as Python ints "
+    "/ Fractions (NaN = NaN); no float == float after a cast, so an int64 matrix holding 2**53 + 1 and its "
+    "float64 copy differ.  A view of another dtype with the same numbers is not a difference",
+    "a sixth family (seed paths 'bi<i>', corpus 'bic<i>'; 70 / thorough 2500 designs): frames with int64 / "
+    "uint64 columns (`stamp`, `ident`: signed ids / nanosecond time stamps, `cnt`: counts, `ustamp`) most of "
+    "whose values lie beyond +-2**53 and are odd (no float64 holds them) and a small int32 id `sid`; formulas "
+    "with such a column as response or as numeric predictor (bare, I(), {..}, offset(), times another integer "
+    "column or a factor), alone, with / without intercept, with full-rank dummies, with group-specific terms "
+    "(stamp | g), (0 + stamp | h), (sid + stamp | g) ..., and 30% with an ordinary float term (then the matrix "
+    "is float64); numpy keeps the intercept, full-rank dummies, integer columns, their products and the "
+    "Khatri-Rao blocks as integer matrices (counted: 'objects with an integer design_matrix holding entries "
+    "beyond 2**53'); new frames get freshly drawn integers.  The evaluation model is not compared on this "
+    "family (numpy's wrapping int64 products / float sums are not exact arithmetic): Spec.C17.holds and the "
+    "exact view comparison judge it",
+]
 TRUSTED = ["numpy column_stack / slicing, pandas DataFrame construction (modelled by hstack/slices)"]
 
 CORPUS = [
@@ -81,6 +101,126 @@ CORPUS = [
     ("y ~ (z:x | h) + (1 | g)", None),
     ("y ~ (poly(x, 2, raw=True):z | h) + f", None),
 ]
+
+# ------------------------------------------------------------------------------------------------
+# exact comparison of two views: the entries as Python numbers (ints stay ints, floats become
+# Fractions, NaN = None; designs.mat), never float == float after a cast -- an int64 matrix holding
+# 2**53 + 1 and a float64 copy of it are NOT equal.  Arrays of one and the same integer / boolean /
+# floating dtype are compared by numpy without any conversion (that comparison is exact)
+# ------------------------------------------------------------------------------------------------
+def _two_d(a):
+    a = np.asarray(a)
+    return a[:, None] if a.ndim == 1 else a
+
+
+def exact_equal(a, b):
+    a, b = _two_d(a), _two_d(b)
+    if a.shape != b.shape:
+        return False
+    if a.dtype == b.dtype and a.dtype.kind in "iub":
+        return bool(np.array_equal(a, b))
+    if a.dtype == b.dtype and a.dtype.kind == "f":
+        return bool(np.array_equal(a, b, equal_nan=True))
+    return designs.mat(a) == designs.mat(b)
+
+
+def first_difference(a, b):
+    """' (shape ...)' or ', e.g. entry [i, j]: <view> instead of <design_matrix>' for a complaint"""
+    a, b = _two_d(a), _two_d(b)
+    if a.shape != b.shape:
+        return f" (shape {a.shape} instead of {b.shape})"
+    ea, eb = designs.mat(a), designs.mat(b)
+    cells = [(i, j) for i in range(len(ea)) for j in range(len(ea[i])) if ea[i][j] != eb[i][j]]
+    if not cells:
+        return ""
+
+    def show(v):
+        return "nan" if v is None else str(v[0]) if v[1] == 1 else f"{v[0]}/{v[1]}"
+    i, j = cells[0]
+    return (f" in {len(cells)} entries (dtypes {a.dtype} / {b.dtype}), e.g. [{i}, {j}]: "
+            f"{show(ea[i][j])} instead of {show(eb[i][j])}")
+
+
+# ------------------------------------------------------------------------------------------------
+# designs whose matrices have an INTEGER dtype with entries beyond +-2**53 (ids, nanosecond time
+# stamps, large counts stored as int64 / uint64): the intercept, full-rank dummies, integer columns,
+# their products and the group-specific blocks built from them stay integer matrices in numpy, and
+# every view must hold exactly those integers (seed paths 'bi<i>', corpus 'bic<i>')
+# ------------------------------------------------------------------------------------------------
+def is_int_path(path):
+    return isinstance(path, str) and path.startswith("bi")
+
+
+def big_ints(r, n, signed):
+    """integers most of which no float64 can hold (odd and beyond 2**53): just beyond 2**53,
+    nanosecond time stamps, ids up to 2**62, and a few small ones"""
+    out = []
+    for _ in range(n):
+        k = r.random()
+        if k < 0.35:
+            v = 2 ** 53 + 2 * r.randrange(0, 2 ** 20) + 1
+        elif k < 0.6:
+            v = (1_600_000_000_000_000_000 + r.randrange(0, 2 * 10 ** 17)) | 1
+        elif k < 0.8:
+            v = r.randrange(2 ** 53, 2 ** 62) | 1
+        else:
+            v = r.randrange(0, 1000)
+        out.append(-v if signed and r.random() < 0.2 else v)
+    for i in r.sample(range(n), min(n, 2)):               # at least two beyond 2**53
+        out[i] = 2 ** 53 + 2 * r.randrange(1, 2 ** 30) + 1
+    return out
+
+
+def add_integer_columns(r, df):
+    """`stamp`, `ident` (int64, signed), `cnt` (int64, non-negative), `ustamp` (uint64), `sid` (small
+    ids, int32)"""
+    out = df.copy()
+    n = len(out)
+    out["stamp"] = np.array(big_ints(r, n, True), dtype=np.int64)
+    out["ident"] = np.array(big_ints(r, n, True), dtype=np.int64)
+    out["cnt"] = np.array(big_ints(r, n, False), dtype=np.int64)
+    out["ustamp"] = np.array(big_ints(r, n, False), dtype=np.uint64)
+    out["sid"] = np.array([r.randrange(0, 40) for _ in range(n)], dtype=np.int32)
+    return out
+
+
+INT_TERMS = ["stamp", "stamp", "stamp", "sid", "n", "I(stamp)", "{stamp + 1}", "stamp:sid", "offset(stamp)",
+             "ustamp", "stamp:n", "I(sid * 2)", "f", "h", "stamp:f", "f:stamp", "h:sid", "g:stamp", "cu",
+             "C(k)", "f:h", "ident", "ident:h"]
+INT_GROUPS = ["(1 | g)", "(stamp | g)", "(0 + stamp | h)", "(sid + stamp | g)", "(0 + f | g)", "(stamp | g:h)",
+              "(0 + stamp:f | h)", "(stamp | g) + (0 + sid | h)", "(1 | h) + (0 + stamp | g)"]
+INT_CORPUS = ["cnt ~ stamp", "cnt ~ 0 + f + stamp", "y ~ stamp + (stamp | g)", "ident ~ sid + (1 | h)",
+              "cnt ~ stamp:f + x", "cnt ~ 1"]
+
+
+def gen_int_formula(r):
+    """an integer response (or an ordinary one) on integer predictors, full-rank dummies and their
+    products, with / without an intercept, a group-specific part, an ordinary float term"""
+    resp = r.choice(["cnt", "cnt", "cnt", "ident", "ident", "y", "n", "yc", "p(s, n)"])
+    terms = []
+    for t in r.sample(INT_TERMS, r.choice([0, 1, 1, 2, 2, 3])):
+        if t not in terms and not (resp == "ident" and "ident" in t):
+            terms.append(t)
+    if r.random() < 0.3:
+        t = designs.gen_term(r, extra=True)
+        if "levels=" not in t and "C(co)" not in t and t not in terms:      # (D13 class: C06's)
+            terms.append(t)
+    if r.random() < 0.45:
+        terms.append(r.choice(INT_GROUPS))
+    r.shuffle(terms)
+    icpt = r.choice(["", "", "0 + ", "1 + "])
+    if not terms:
+        return f"{resp} ~ " + r.choice(["1", "0 + stamp", "stamp"])
+    return f"{resp} ~ {icpt}" + " + ".join(terms)
+
+
+def refresh_integers(r, nd):
+    """new frames carry other integers than the training rows they were drawn from"""
+    out = nd.copy()
+    for col, signed, dt in (("stamp", True, np.int64), ("ident", True, np.int64), ("ustamp", False, np.uint64)):
+        if r.random() < 0.7:
+            out[col] = np.array(big_ints(r, len(out), signed), dtype=dt)
+    return out
 
 
 def own_blocks(obj, nd=None):
@@ -235,19 +375,28 @@ def api_checks(obj, kind, nd=None, blocks=_UNSET):
                         np.asarray(sub, dtype=float), np.asarray(own, dtype=float), equal_nan=True):
                     bad.append(f"obj[{name!r}] (shape {sub.shape}) is not the term's own block "
                                f"(shape {own.shape})")
+                elif sub.dtype.kind in "iu" and own.dtype.kind in "iu" and not exact_equal(sub, own):
+                    bad.append(f"obj[{name!r}] is not the term's own block" + first_difference(sub, own))
             except Exception as e:  # noqa
                 bad.append(f"obj[{name!r}] against the term's own block raised {type(e).__name__}")
-    try:
-        if np.asarray(obj) is not obj.design_matrix and not np.array_equal(
-                np.asarray(obj), dmx, equal_nan=True):
-            bad.append("np.asarray(obj) differs from design_matrix")
-    except Exception as e:  # noqa
-        bad.append(f"np.asarray raised {type(e).__name__}")
+    converted = None
+    for how, fn in (("np.asarray(obj)", np.asarray), ("np.array(obj)", np.array)):
+        try:
+            got = fn(obj)
+            if how == "np.asarray(obj)":
+                converted = got
+            if got is not obj.design_matrix and not exact_equal(got, dmx):
+                bad.append(f"{how} differs from design_matrix" + first_difference(got, dmx))
+        except Exception as e:  # noqa
+            bad.append(f"{how} raised {type(e).__name__}")
     for name, sl in obj.slices.items():
         try:
             sub = obj[name]
-            if not np.array_equal(sub, dmx[:, sl], equal_nan=True):
-                bad.append(f"obj[{name!r}] is not the slice")
+            if not exact_equal(sub, dmx[:, sl]):
+                bad.append(f"obj[{name!r}] is not the slice" + first_difference(sub, dmx[:, sl]))
+            if converted is not None and np.ndim(converted) == 2 and not exact_equal(converted[:, sl], sub):
+                bad.append(f"np.asarray(obj)[:, slices[{name!r}]] differs from obj[{name!r}]"
+                           + first_difference(converted[:, sl], sub))
         except Exception as e:  # noqa
             bad.append(f"obj[{name!r}] raised {type(e).__name__}")
     try:
@@ -260,9 +409,9 @@ def api_checks(obj, kind, nd=None, blocks=_UNSET):
     if kind == "common":
         try:
             frame = obj.as_dataframe()
-            if not np.array_equal(frame.to_numpy(dtype=float), np.asarray(dmx, dtype=float).reshape(
-                    frame.shape), equal_nan=True):
-                bad.append("as_dataframe() values differ from design_matrix")
+            if not exact_equal(frame.to_numpy(), dmx.reshape(frame.shape)):
+                bad.append("as_dataframe() values differ from design_matrix"
+                           + first_difference(frame.to_numpy(), dmx.reshape(frame.shape)))
             labs = designs._labels(list(obj.terms.values()))
             if labs is not None and list(frame.columns) != labs:
                 bad.append("as_dataframe() columns differ from the labels")
@@ -287,11 +436,21 @@ def response_checks(dm):
         return bad
     try:
         frame = r.as_dataframe()
-        a = np.asarray(r.design_matrix, dtype=float)
-        if not np.array_equal(frame.to_numpy(dtype=float).reshape(a.shape), a, equal_nan=True):
-            bad.append("response.as_dataframe() values differ")
+        a = np.asarray(r.design_matrix)
+        if not exact_equal(frame.to_numpy().reshape(a.shape), a):
+            bad.append("response.as_dataframe() values differ"
+                       + first_difference(frame.to_numpy().reshape(a.shape), a))
     except Exception as e:  # noqa
         bad.append(f"response.as_dataframe raised {type(e).__name__}")
+    for how, fn in (("np.asarray(response)", np.asarray), ("np.array(response)", np.array)):
+        try:
+            got = fn(r)
+            if got is not r.design_matrix and not (np.shape(got) == np.shape(r.design_matrix)
+                                                   and exact_equal(got, r.design_matrix)):
+                bad.append(f"{how} differs from response.design_matrix"
+                           + first_difference(got, r.design_matrix))
+        except Exception as e:  # noqa
+            bad.append(f"{how} raised {type(e).__name__}")
     for fn in (str, repr):
         try:
             text = fn(r)
@@ -587,6 +746,10 @@ def explore(tier, seed, res=None, replay=None):
                 "chain steps have unseen levels in different grouping factors per step (slice widths = "
                 "the terms' own widths after every step); for 2 of 7 cases a second design with the same "
                 "formula text is built on another frame afterwards and the first design is judged again; "
+                "plus designs whose matrices have an integer dtype with entries beyond +-2**53 (int64 ids / "
+                "time stamps / counts as response and as numeric predictor, alone and with other terms, "
+                "training and new frames); all views (np.asarray, np.array, as_dataframe, obj[term]) of every "
+                "object are compared exactly (Python ints / Fractions across dtypes) with design_matrix; "
                 "non-trivial = a design with >= 2 terms in "
                 "some matrix; distinct by formula text")
     rng = rng_for(seed, "c17")
@@ -607,6 +770,10 @@ def explore(tier, seed, res=None, replay=None):
             cases.append((None, f"of{i}"))
         for i in range(90 if tier == "quick" else 3000):
             cases.append((None, f"ch{i}"))
+        for i, f in enumerate(INT_CORPUS):
+            cases.append((f, f"bic{i}"))
+        for i in range(70 if tier == "quick" else 2500):
+            cases.append((None, f"bi{i}"))
     open_ids = {k["id"] for k in known_findings("C17")}
     views, owners, reqs, req_owner = [], [], [], []
     records = []
@@ -616,12 +783,17 @@ def explore(tier, seed, res=None, replay=None):
         # a replayed generated case draws its formula again (and uses the replayed text), so that the
         # frame edits and new frames that follow come from the same stream as in the original run
         regenerate = f is None or (replay is not None and not (
-            isinstance(path, int) and path < len(CORPUS) and CORPUS[path][0] == f))
+            isinstance(path, int) and path < len(CORPUS) and CORPUS[path][0] == f)
+            and not str(path).startswith("bic"))
         plan = None
         if is_float_path(path):
             df = add_float_columns(r, df)
             g = gen_float_formula(r) if regenerate else None
             res.count("float_level_cases")
+        elif is_int_path(path):
+            df = add_integer_columns(r, df)
+            g = gen_int_formula(r) if regenerate else None
+            res.count("integer_matrix_cases")
         elif is_chain_path(path):
             g, _, plan = gen_chain_formula(r)
             res.count("chain_cases: steps with unseen levels in different grouping factors")
@@ -641,9 +813,15 @@ def explore(tier, seed, res=None, replay=None):
         with_unseen = r.random() < 0.6
         news = new_frames(r, df if keep.all() else df[keep], with_unseen) if plan is None else \
             chain_frames(r, df, plan)
+        if is_int_path(path):
+            news = [refresh_integers(r, nd) for nd in news]
         obs, req = designs.observe(formula, df, designs.NAMES,
                                    [{"df": nd, "mode": "silent"} for nd in news])
         case = {"formula": formula, "seed_path": path}
+        if is_int_path(path):
+            case["integer_columns_of_the_frame"] = {
+                c: [int(v) for v in df[c].tolist()] for c in ("stamp", "ident", "cnt", "ustamp", "sid")
+                if c in used}
         if plan is not None:
             case["unseen_levels_per_step_in"] = plan
         if req is None:
@@ -684,6 +862,12 @@ def explore(tier, seed, res=None, replay=None):
                     blocks = own_blocks(o, nd) if (kind == "group" or nd is None or plan is not None) \
                         else None
                     v = view(o, rows, widened, nd, blocks)
+                    if is_int_path(path):
+                        m = np.asarray(o.design_matrix)
+                        if m.dtype.kind in "iu":
+                            res.count("objects with an integer design_matrix"
+                                      + (" holding entries beyond 2**53" if m.size and int(
+                                          np.abs(m.astype(object)).max()) > 2 ** 53 else ""))
                     if step:
                         v["stage"] = f"step {step} of the chain of evaluate_new_data calls"
                     rec["views"].append(v)
@@ -748,6 +932,8 @@ def explore(tier, seed, res=None, replay=None):
                     "another generated frame, " + other_kind)
                 res.count("second design with the same formula text: " + other_kind)
                 d2 = other_frame(rd, other_kind, float_cols=is_float_path(path))
+                if is_int_path(path):
+                    d2 = add_integer_columns(rd, d2)
                 try:
                     with warnings.catch_warnings():
                         warnings.simplefilter("ignore")
@@ -782,7 +968,12 @@ def explore(tier, seed, res=None, replay=None):
             res.nontrivial.add(formula)
         res.count("objects", len(rec["views"]))
         req["new"] = req["new"][:0]        # the containers of the training design are compared
-        if is_float_path(path) and ("fl" in dm.model.var_names or "flc" in dm.model.var_names):
+        if is_int_path(path):
+            # numpy's int64 / float64 arithmetic on integers beyond 2**53 (products that wrap, sums in
+            # float) is not the exact arithmetic of the evaluation model: judged by Spec.C17.holds and
+            # the exact comparison of the views alone
+            res.count("model_skip:integer columns beyond 2**53 (numpy arithmetic is not exact there)")
+        elif is_float_path(path) and ("fl" in dm.model.var_names or "flc" in dm.model.var_names):
             # levels of the evaluation model are strings or integers (Model/Frame.lean: Level):
             # float levels are outside it; these designs are judged by Spec.C17.holds alone
             res.count("model_skip:float levels are not representable in the evaluation model")
